@@ -6,6 +6,8 @@ CONSTANTS
   Values <- McValues
   Messages <- McMessages
   Servers <- McServers
+  Forms <- McForms
+  MaxServes = 1
   Deviation = "client-accepts-nonzero"
 INVARIANTS ClientNeverConfuses
 CHECK_DEADLOCK FALSE
